@@ -90,6 +90,11 @@ func richDocForm(version string, mk func(loc string) string, sig bool, form stri
 	// deliberately deletes /PieceInfo, so that is not used)
 	sdict := d.AddStream(fmt.Sprintf("/VerifNote %s /VerifList [(in-stream-dict) << /K (v) >>]", S("streamdict")), []byte("stream with strings in its dictionary"))
 	empty := d.AddStream("", nil)
+	// streams exempt from encryption (Identity crypt filter): their data stays as it is, the strings of their dictionaries do not
+	cryptIdent := d.AddStream(fmt.Sprintf("/Filter /Crypt /DecodeParms << /Name /Identity >> /VerifNote %s /VerifList [(identity) << /K <4b4c> >>]", S("streamdict")),
+		[]byte("stream data exempt from encryption"))
+	cryptEF := d.AddStream("/Type /EmbeddedFile /Filter [/Crypt] /DecodeParms [<< /Type /CryptFilterDecodeParms /Name /Identity >>] "+
+		"/Params << /Size 28 /ModDate (D:20240102030405Z) /CheckSum <00112233445566778899aabbccddeeff> >>", []byte("exempt embedded file content\n"))
 	// block-boundary classes for the block ciphers: strings and (unfiltered and Flate-coded) streams of 0, 1, 15, 16, 17,
 	// 31, 32, 33, 48 bytes ending in 0x01, LF, CR, 0x10 (the values a PKCS#7 pad byte can take) or a letter
 	var blockStrs, blockStreams []string
@@ -111,8 +116,8 @@ func richDocForm(version string, mk func(loc string) string, sig bool, form stri
 	}
 	blocks := d.Add(fmt.Sprintf("<< /Strings [%s] /Streams [%s] >>", strings.Join(blockStrs, " "), strings.Join(blockStreams, " ")))
 	priv := d.Add(fmt.Sprintf("<< /Blocks %d 0 R /A [ %s [ (level two \\(with parens\\) \\\\ and \\101 octal) << /K %s /E () /H <> /Bin (\\000\\001\\377\\376) >> ] ] "+
-		"/D << /D2 << /S (deep string) /Hex <%s> /U16 <FEFF00500044004600E4> >> >> /Streams [%d 0 R %d 0 R] >>",
-		blocks, S("nested"), S("nested"), hex.EncodeToString([]byte(mk("hexstr"))), sdict, empty))
+		"/D << /D2 << /S (deep string) /Hex <%s> /U16 <FEFF00500044004600E4> >> >> /Streams [%d 0 R %d 0 R %d 0 R %d 0 R] >>",
+		blocks, S("nested"), S("nested"), hex.EncodeToString([]byte(mk("hexstr"))), sdict, empty, cryptIdent, cryptEF))
 	// indirect scalar objects: strings that are objects of their own (members of the object stream in that layout),
 	// referenced only from private keys of an annotation, a nested array, the info dict, a page and the catalog
 	indAnnot := d.Add(S("indstr_annot"))
@@ -260,7 +265,9 @@ func (c *canon) obj(o types.Object, top string) {
 		c.b.WriteString("stream")
 		c.dict(v.Dict, "stream")
 		sd := v
-		if err := sd.Decode(); err != nil {
+		if len(sd.FilterPipeline) == 1 && sd.FilterPipeline[0].Name == "Crypt" {
+			sd.Content = sd.Raw // Identity crypt filter: the data is what is stored
+		} else if err := sd.Decode(); err != nil {
 			c.errs = append(c.errs, "decode: "+err.Error())
 		}
 		sum := sha256.Sum256(sd.Content)
